@@ -1,0 +1,91 @@
+//go:build verif
+
+package checker
+
+// Contracts for govc (see /verif/DESIGN.md). Comment-only file.
+
+// C04: every node checker decides chkOK; a failure is a positioned document
+// error, placed at the start of the example value unless the rule itself
+// produced a positioned error
+//@ interface nodeChecker.Check(self, lex)
+//@   requires isChecker(self) && lexWF(lex)
+//@   nopanic
+//@   ensures (result == nil) <==> chkOK(self, lex)
+//@   ensures result != nil ==> typeis(result, errors.DocumentError)
+
+// C04: Check evaluates the SAME literal judgment as Validate, on the example's
+// own bytes, and reports the start of the value when it fails
+//@ func (literalChecker).Check(nodeLex)
+//@   props C04 C17
+//@   implements nodeChecker.Check
+//@   requires lexWF(nodeLex)
+//@   nopanic
+//@   ensures (err == nil) <==> (nodeLex.lexEventType == lexeme.LiteralEnd && litOK(c.node, lexBytes(nodeLex)))
+//@   ensures err != nil ==> typeis(err, errors.DocumentError)
+//@   ensures err != nil && !(nodeLex.lexEventType == lexeme.LiteralEnd && litPosErr(c.node, lexBytes(nodeLex))) ==> unbox(err, errors.DocumentError).index == nodeLex.begin && unbox(err, errors.DocumentError).hasIndex && unbox(err, errors.DocumentError).file == nodeLex.file
+
+//@ func (mixedChecker).Check(nodeLex)
+//@   props C04 C17
+//@   implements nodeChecker.Check
+//@   requires lexWF(nodeLex)
+//@   nopanic
+//@   ensures (err == nil) <==> (nodeLex.lexEventType != lexeme.LiteralEnd || litOK(c.node, lexBytes(nodeLex)))
+//@   ensures err != nil ==> typeis(err, errors.DocumentError)
+//@   ensures err != nil && !litPosErr(c.node, lexBytes(nodeLex)) ==> unbox(err, errors.DocumentError).index == nodeLex.begin && unbox(err, errors.DocumentError).hasIndex
+
+//@ func (arrayChecker).Check(nodeLex)
+//@   props C04
+//@   implements nodeChecker.Check
+//@   nopanic
+//@   ensures (result == nil) <==> nodeLex.lexEventType == lexeme.ArrayEnd
+//@   ensures result != nil ==> typeis(result, errors.DocumentError) && unbox(result, errors.DocumentError).index == nodeLex.begin
+
+//@ func (objectChecker).Check(nodeLex)
+//@   props C04
+//@   implements nodeChecker.Check
+//@   nopanic
+//@   ensures (result == nil) <==> nodeLex.lexEventType == lexeme.ObjectEnd
+//@   ensures result != nil ==> typeis(result, errors.DocumentError) && unbox(result, errors.DocumentError).index == nodeLex.begin
+
+// the checker chosen for a node class
+//@ func newNodeChecker(node)
+//@   props C04
+//@   nopanic
+//@   ensures (result1 == nil) <==> (typeis(node, *schema.LiteralNode) || typeis(node, *schema.ObjectNode) || typeis(node, *schema.ArrayNode) || typeis(node, *schema.MixedNode))
+//@   ensures result1 == nil ==> isChecker(result0)
+//@   ensures typeis(node, *schema.LiteralNode) ==> typeis(result0, literalChecker) && unbox(result0, literalChecker).node == node
+//@   ensures typeis(node, *schema.MixedNode) ==> typeis(result0, mixedChecker) && unbox(result0, mixedChecker).node == node
+//@   ensures typeis(node, *schema.ObjectNode) ==> typeis(result0, objectChecker)
+//@   ensures typeis(node, *schema.ArrayNode) ==> typeis(result0, arrayChecker)
+
+// C04: "array item counts of the example are checked against minItems/maxItems"
+//@ func (checkSchema).checkArrayNode(node)
+//@   props C04
+//@   requires typeis(node, *schema.ArrayNode) && ival(node) != 0 && consReady(node) && consKinds(node)
+//@   maypanic
+//@   ensures panics <==> ((hasRule(node, constraint.MinItemsConstraintType) && len(unbox(node, *schema.ArrayNode).children) < unbox(consOf(node).data[constraint.MinItemsConstraintType], *constraint.MinItems).value)
+//@                     || (hasRule(node, constraint.MaxItemsConstraintType) && len(unbox(node, *schema.ArrayNode).children) > unbox(consOf(node).data[constraint.MaxItemsConstraintType], *constraint.MaxItems).value))
+
+// ASSUMED: the list of checkers built for a node (type references expanded
+// through getType, which selects between two closures under a recover and is
+// outside the verified subset) holds only node checkers and changes nothing
+// the caller can see
+//@ func (*checkSchema).checkerList(node, ss)
+//@   props C04
+//@   trusted "checker list construction (buildList/getType: closure selection under recover) is not verified; assumed to return node checkers and to have no visible effect"
+//@   maypanic
+//@   ensures normal ==> (forall i {result[i]} :: 0 <= i && i < len(result) ==> isChecker(result[i]))
+//@   defines result == checkersOf(c.rootSchema, node)
+
+// C04: a literal position fails exactly when every candidate checker rejects
+// the example value (one candidate unless the node names several types); the
+// error of a single candidate is reported as is
+//@ func (checkSchema).checkLiteralNode(node, ss)
+//@   props C04
+//@   requires isNode(node) && lexWF(basisLex(node))
+//@   maypanic
+//@   ensures normal ==> (exists i {checkersOf(c.rootSchema, node)[i]} :: 0 <= i && i < len(checkersOf(c.rootSchema, node)) && chkOK(checkersOf(c.rootSchema, node)[i], basisLex(node)))
+//@   loop 0 invariant 0 <= errorsCount && errorsCount <= rangeindex + 1
+//@   loop 0 invariant (errorsCount == rangeindex + 1) <==> (forall j {checkerList[j]} :: 0 <= j && j <= rangeindex ==> !chkOK(checkerList[j], basisLex(node)))
+//@   loop 0 invariant rangeindex >= 0 && !chkOK(checkerList[rangeindex], basisLex(node)) ==> err != nil && typeis(err, errors.DocumentError)
+//@   loop 0 decreases len(checkerList) - rangeindex
